@@ -12,10 +12,20 @@ Author: Varun Agrawal, Gerry Chen
 
 from typing import List
 
-from pyparsing import Optional, ParseResults  # type: ignore
+from pyparsing import Keyword, MatchFirst, Optional, ParseResults  # type: ignore
 
 from .tokens import DEFAULT_ARG, EQUAL, IDENT, SEMI_COLON
 from .type import TemplatedType, Type
+
+
+# Words that introduce other declarations: neither the type nor the name of a
+# variable. Without this, text that fails another rule is re-read as a variable
+# with an initializer, e.g. a malformed `T operator==(...) const;` as a variable
+# named `operator`, or `class A = {...};` as a variable of type `class`.
+_RESERVED = MatchFirst([
+    Keyword(word) for word in ("class", "enum", "namespace", "operator",
+                               "static", "template", "typedef", "virtual")
+])
 
 
 class Variable:
@@ -32,7 +42,9 @@ class Variable:
     Vector3 kGravity;  // This is a global variable.
     ````
     """
-    rule = ((Type.rule ^ TemplatedType.rule)("ctype")  #
+    rule = (~_RESERVED  #
+            + (Type.rule ^ TemplatedType.rule)("ctype")  #
+            + ~_RESERVED  #
             + IDENT("name")  #
             + Optional(EQUAL + DEFAULT_ARG)("default")  #
             + SEMI_COLON  #
